@@ -51,6 +51,10 @@ def run(cmd, cwd=None, timeout=None, env=None, stdin=None):
                              start_new_session=True)
         try:
             out, _ = p.communicate(input=stdin, timeout=timeout)
+            try:
+                os.killpg(p.pid, 9)   # reap stragglers of our own process group only
+            except (ProcessLookupError, PermissionError):
+                pass
             return p.returncode, out.decode("utf-8", "replace"), time.time() - t0, False
         except subprocess.TimeoutExpired:
             try:
